@@ -316,7 +316,13 @@ impl<S: Read> Master<S> {
         index: &mut u64,
         process: &mut dyn Process,
     ) -> Result<ProcessDesision> {
-        assert!(file.exists(), "File {file:?} not exists");
+        if !file.exists() {
+            return Err(IoEror::new(
+                std::io::ErrorKind::NotFound,
+                format!("File {file:?} not exists"),
+            )
+            .into());
+        }
         if file.is_dir() {
             for entry in read_dir(file)? {
                 let path = entry?.path();
